@@ -132,6 +132,20 @@ harnesses! {
         }
         reach!(n1 == 3 && n2 == 3, "both full");
     }
+    fn c11_q_collect_windows_to_vec [10] {
+        // FromIterator<&SeqSlice> for Vec<Seq>: each window copied out as an owned sequence
+        let w = any_words::<2>();
+        let s = arr::<Dna, 64, 2>(w);
+        let win = &s[30..33];
+        let v: Vec<Seq<Dna>> = win.windows(2).collect();
+        assert!(v.len() == 2, "C11.collect.count");
+        let (j, t) = (any_usize(), any_usize());
+        assume(j < 2 && t < 2);
+        assert!(v[j].len() == 2, "C11.collect.item_width");
+        assert!(v[j].nth(t).to_bits() == sym(&w, 60, 2, j + t), "C11.collect.item_symbols");
+        reach!("end");
+        core::mem::forget(v);
+    }
     fn c11_q_into_iter_owned_dna [10] {
         // IntoIterator for &Seq (heap-backed)
         let wd = any_usize();
